@@ -316,4 +316,273 @@ theorem exists_max_index (f : Nat → α) (n : Nat) (hn : 0 < n) : ∃ i, i < n 
         · exact hmax j hj
         · exact le_of_lt (not_le.mp h)
 
+/-! ### ranks -/
+
+theorem cntLt_add_cntEq_le (xs : List α) {x y : α} (h : x < y) : cntLt xs x + cntEq xs x ≤ cntLt xs y := by
+  unfold cntLt cntEq
+  induction xs with
+  | nil => simp
+  | cons z t ih =>
+    simp only [List.countP_cons]
+    by_cases h1 : z < x
+    · have h2 : z < y := lt_trans h1 h
+      have h3 : ¬ x < z := not_lt.mpr h1.le
+      simp [h1, h2]
+      omega
+    · by_cases h4 : x < z
+      · simp [h1, h4]
+        split <;> omega
+      · have : z = x := le_antisymm (not_lt.mp h4) (not_lt.mp h1)
+        subst this
+        simp [h]
+        omega
+
+theorem cntLt_add_cntEq_le_length (xs : List α) (x : α) : cntLt xs x + cntEq xs x ≤ xs.length := by
+  unfold cntLt cntEq
+  induction xs with
+  | nil => simp
+  | cons z t ih =>
+    simp only [List.countP_cons, List.length_cons]
+    by_cases h1 : z < x
+    · have h3 : ¬ x < z := not_lt.mpr h1.le
+      simp [h1]
+      omega
+    · simp [h1]
+      split <;> omega
+
+theorem cntEq_pos (xs : List α) {x : α} (h : x ∈ xs) : 0 < cntEq xs x := by
+  unfold cntEq
+  rw [List.countP_pos_iff]
+  exact ⟨x, h, by simp⟩
+
+/-- a strictly larger entry gets a strictly larger rank (all three tie methods) -/
+theorem rank_lt_of_lt (m : RankMethod) (xs : List α) {x y : α} (hx : x ∈ xs) (hy : y ∈ xs) (h : x < y) :
+    rank m xs x < rank m xs y := by
+  have h1 := cntLt_add_cntEq_le xs h
+  have h2 := cntEq_pos xs hx
+  have h3 := cntEq_pos xs hy
+  have c1 : ((cntLt xs x : Nat) : α) + ((cntEq xs x : Nat) : α) ≤ ((cntLt xs y : Nat) : α) := by exact_mod_cast h1
+  have c2 : (1 : α) ≤ ((cntEq xs x : Nat) : α) := by exact_mod_cast h2
+  have c3 : (1 : α) ≤ ((cntEq xs y : Nat) : α) := by exact_mod_cast h3
+  cases m with
+  | average =>
+    simp only [rank]
+    linarith
+  | min =>
+    simp only [rank]
+    have : cntLt xs x + 1 < cntLt xs y + 1 := by omega
+    exact_mod_cast this
+  | max =>
+    simp only [rank]
+    have : cntLt xs x + cntEq xs x < cntLt xs y + cntEq xs y := by omega
+    exact_mod_cast this
+
+/-- ranks run from 1 to the sample size -/
+theorem rank_bounds (m : RankMethod) (xs : List α) {x : α} (hx : x ∈ xs) :
+    1 ≤ rank m xs x ∧ rank m xs x ≤ (xs.length : α) := by
+  have h1 := cntLt_add_cntEq_le_length xs x
+  have h2 := cntEq_pos xs hx
+  have c0 : (0 : α) ≤ ((cntLt xs x : Nat) : α) := Nat.cast_nonneg _
+  have c1 : ((cntLt xs x : Nat) : α) + ((cntEq xs x : Nat) : α) ≤ (xs.length : α) := by exact_mod_cast h1
+  have c2 : (1 : α) ≤ ((cntEq xs x : Nat) : α) := by exact_mod_cast h2
+  cases m with
+  | average =>
+    simp only [rank]
+    constructor <;> linarith
+  | min =>
+    simp only [rank]
+    constructor
+    · have : 1 ≤ cntLt xs x + 1 := by omega
+      exact_mod_cast this
+    · have : cntLt xs x + 1 ≤ xs.length := by omega
+      exact_mod_cast this
+  | max =>
+    simp only [rank]
+    constructor
+    · have : 1 ≤ cntLt xs x + cntEq xs x := by omega
+      exact_mod_cast this
+    · exact_mod_cast h1
+
+theorem scoreArg_lt (n : Nat) (hn : 0 < n) (cst : α) (h1 : cst ≤ 1 / 2) {r s : α} (h : r < s) :
+    scoreArg n cst r < scoreArg n cst s := by
+  unfold scoreArg
+  apply div_lt_div_of_pos_right _ (ppos_den_pos n hn cst h1)
+  linarith
+
+theorem scoreArg_mem_unit (n : Nat) (hn : 0 < n) (cst : α) (h0 : 0 ≤ cst) (h1 : cst ≤ 1 / 2) {r : α}
+    (hr0 : 0 ≤ r) (hr1 : r ≤ (n : α) - 1) : 0 < scoreArg n cst r ∧ scoreArg n cst r < 1 := by
+  unfold scoreArg
+  have hden := ppos_den_pos n hn cst h1
+  have h2 : 2 * cst ≤ 1 := by
+    have := mul_le_mul_of_nonneg_left h1 (by norm_num : (0 : α) ≤ 2)
+    simpa using this
+  constructor
+  · apply div_pos _ hden
+    linarith
+  · rw [div_lt_one hden]
+    push_cast
+    linarith
+
+/-! ### lhs -/
+
+theorem gather_eq_some {β : Type} (u : List β) (g : Nat → β) (ks : List Nat)
+    (h : ∀ k ∈ ks, u[k]? = some (g k)) : gather u ks = some (ks.map g) := by
+  induction ks with
+  | nil => rfl
+  | cons k t ih =>
+    have hk := h k (by simp)
+    have ht := ih (fun k' hk' => h k' (List.mem_cons_of_mem _ hk'))
+    simp only [gather, hk, ht, List.map_cons]
+
+/-- the stratum centres: `linspace(pmin + du/2, pmax - du/2, n)[k] = pmin + du/2 + k du` -/
+theorem linspace_centres (pmin pmax : α) (n : Nat) (k : Nat) (hk : k < n) :
+    (linspace (pmin + (pmax - pmin) / (n : α) / 2) (pmax - (pmax - pmin) / (n : α) / 2) n)[k]? =
+      some (pmin + (pmax - pmin) / (n : α) / 2 + (k : α) * ((pmax - pmin) / (n : α))) := by
+  match n, hk with
+  | 1, hk =>
+    have : k = 0 := by omega
+    subst this
+    simp [linspace]
+  | m + 2, hk =>
+    have hm2 : ((m + 2 : Nat) : α) ≠ 0 := by exact_mod_cast (by omega : m + 2 ≠ 0)
+    have hm1 : ((m + 1 : Nat) : α) ≠ 0 := by exact_mod_cast (by omega : m + 1 ≠ 0)
+    simp only [linspace]
+    by_cases hlast : k < m + 1
+    · rw [List.getElem?_append_left (by simpa using hlast), List.getElem?_map, List.getElem?_range hlast]
+      simp only [Option.map_some, Option.some.injEq]
+      push_cast at hm2 hm1 ⊢
+      field_simp
+      ring
+    · have hk' : k = m + 1 := by omega
+      subst hk'
+      rw [List.getElem?_append_right (by simp)]
+      simp only [List.length_map, List.length_range, Nat.sub_self, List.getElem?_cons_zero, Option.some.injEq]
+      push_cast at hm2 hm1 ⊢
+      field_simp
+      ring
+
+/-- a sample `pmin + p du + du r` with `r ∈ [0, 1)` is in stratum `k` exactly when `p = k` -/
+theorem stratum_iff (pmin du : α) (hdu : 0 < du) (p k : Nat) (r : α) (hr0 : 0 ≤ r) (hr1 : r < 1) :
+    (pmin + (k : α) * du ≤ pmin + (p : α) * du + du * r ∧ pmin + (p : α) * du + du * r < pmin + ((k : α) + 1) * du)
+      ↔ p = k := by
+  constructor
+  · rintro ⟨h1, h2⟩
+    rcases Nat.lt_trichotomy p k with h | h | h
+    · exfalso
+      have : (p : α) + 1 ≤ (k : α) := by exact_mod_cast h
+      have h3 := mul_le_mul_of_nonneg_right this hdu.le
+      have h4 : du * r < du := by simpa using mul_lt_mul_of_pos_left hr1 hdu
+      nlinarith
+    · exact h
+    · exfalso
+      have : (k : α) + 1 ≤ (p : α) := by exact_mod_cast h
+      have h3 := mul_le_mul_of_nonneg_right this hdu.le
+      have h4 : 0 ≤ du * r := mul_nonneg hdu.le hr0
+      nlinarith
+  · rintro rfl
+    have h4 : du * r < du := by simpa using mul_lt_mul_of_pos_left hr1 hdu
+    have h5 : 0 ≤ du * r := mul_nonneg hdu.le hr0
+    constructor <;> nlinarith
+
+theorem countP_zipWith_stratum (pmin du : α) (hdu : 0 < du) (k : Nat) (perm : List Nat) (r : List α)
+    (hr : ∀ x ∈ r, 0 ≤ x ∧ x < 1) (hlen : perm.length = r.length) :
+    (List.zipWith (fun (p : Nat) ri => pmin + du / 2 + (p : α) * du + (-du / 2 + (du / 2 - -du / 2) * ri)) perm r).countP
+      (fun x => decide (pmin + (k : α) * du ≤ x ∧ x < pmin + ((k : α) + 1) * du)) = perm.count k := by
+  induction perm generalizing r with
+  | nil => simp
+  | cons p t ih =>
+    cases r with
+    | nil => simp at hlen
+    | cons ri rt =>
+      have hri := hr ri (by simp)
+      have hrt : ∀ x ∈ rt, 0 ≤ x ∧ x < 1 := fun x hx => hr x (List.mem_cons_of_mem _ hx)
+      have hl : t.length = rt.length := by simpa using hlen
+      simp only [List.zipWith_cons_cons, List.countP_cons, List.count_cons, ih rt hrt hl]
+      congr 1
+      have heq : pmin + du / 2 + (p : α) * du + (-du / 2 + (du / 2 - -du / 2) * ri) = pmin + (p : α) * du + du * ri := by
+        ring
+      rw [heq]
+      have := stratum_iff pmin du hdu p k ri hri.1 hri.2
+      by_cases hpk : p = k
+      · have hy := this.mpr hpk
+        rw [decide_eq_true hy]
+        simp [hpk]
+      · have hn := mt this.mp hpk
+        rw [decide_eq_false hn]
+        simp [hpk]
+
+theorem lhsColumn_eq (n : Nat) (pmin pmax : α) (perm : List Nat) (r : List α)
+    (hp : perm.length = n) (hr : r.length = n) (hk : ∀ k ∈ perm, k < n) :
+    lhsColumn n pmin pmax perm r = .ok (List.zipWith (fun (p : Nat) ri =>
+      pmin + (pmax - pmin) / (n : α) / 2 + (p : α) * ((pmax - pmin) / (n : α))
+        + (-((pmax - pmin) / (n : α)) / 2 + ((pmax - pmin) / (n : α) / 2 - -((pmax - pmin) / (n : α)) / 2) * ri)) perm r) := by
+  unfold lhsColumn
+  simp only [hp, hr, ne_eq, not_true_eq_false, or_self, if_false]
+  rw [gather_eq_some _ (fun k => pmin + (pmax - pmin) / (n : α) / 2 + (k : α) * ((pmax - pmin) / (n : α))) perm
+    (fun k hk' => linspace_centres pmin pmax n k (hk k hk'))]
+  simp only [List.zipWith_map_left]
+
+/-- what `lhs` needs of its inputs, parameter by parameter: a proper range, a permutation of `0..n-1`
+and `n` unit draws in `[0, 1)` -/
+def LhsInputsOK (n : Nat) : List α → List α → List (List Nat) → List (List α) → Prop
+  | a :: pmin, b :: pmax, p :: perms, r :: rs =>
+    a < b ∧ p.Perm (List.range n) ∧ r.length = n ∧ (∀ x ∈ r, 0 ≤ x ∧ x < 1) ∧ LhsInputsOK n pmin pmax perms rs
+  | [], [], [], [] => True
+  | _, _, _, _ => False
+
+/-- every column has `n` samples, exactly one in each of the `n` equal strata of its range -/
+def OnePerStratum (n : Nat) : List α → List α → List (List α) → Prop
+  | a :: pmin, b :: pmax, c :: cols =>
+    c.length = n ∧
+    (∀ k, k < n → c.countP (fun x => decide (a + (k : α) * ((b - a) / (n : α)) ≤ x ∧
+                                            x < a + ((k : α) + 1) * ((b - a) / (n : α)))) = 1) ∧
+    OnePerStratum n pmin pmax cols
+  | [], [], [] => True
+  | _, _, _ => False
+
+theorem LhsInputsOK.length_eq {n : Nat} {pmin pmax : List α} {perms : List (List Nat)} {rs : List (List α)}
+    (h : LhsInputsOK n pmin pmax perms rs) : pmax.length = pmin.length := by
+  induction pmin generalizing pmax perms rs with
+  | nil =>
+    cases pmax <;> cases perms <;> cases rs <;> simp_all [LhsInputsOK]
+  | cons a t ih =>
+    cases pmax with
+    | nil => simp [LhsInputsOK] at h
+    | cons b tb =>
+      cases perms with
+      | nil => simp [LhsInputsOK] at h
+      | cons p tp =>
+        cases rs with
+        | nil => simp [LhsInputsOK] at h
+        | cons r tr =>
+          simp only [LhsInputsOK] at h
+          simp [ih h.2.2.2.2]
+
+theorem LhsInputsOK.no_empty_range {n : Nat} {pmin pmax : List α} {perms : List (List Nat)} {rs : List (List α)}
+    (h : LhsInputsOK n pmin pmax perms rs) :
+    (List.zipWith (fun a b => decide (b - a ≤ 0)) pmin pmax).any id = false := by
+  induction pmin generalizing pmax perms rs with
+  | nil => simp
+  | cons a t ih =>
+    cases pmax with
+    | nil => simp
+    | cons b tb =>
+      cases perms with
+      | nil => simp [LhsInputsOK] at h
+      | cons p tp =>
+        cases rs with
+        | nil => simp [LhsInputsOK] at h
+        | cons r tr =>
+          simp only [LhsInputsOK] at h
+          simp only [List.zipWith_cons_cons, List.any_cons, ih h.2.2.2.2, Bool.or_false, id]
+          simp only [decide_eq_false_iff_not, not_le, sub_pos]
+          exact h.1
+
+theorem broadcast_eq {β : Type} (pmax : List β) (m : Nat) (h : pmax.length = m) : broadcast m pmax = pmax := by
+  subst h
+  match pmax with
+  | [] => rfl
+  | [p] => rfl
+  | _ :: _ :: _ => rfl
+
 end HydroVerif.C20
